@@ -281,10 +281,10 @@ fn converse_weighted<const N: usize>() {
     core::mem::forget(c);
 }
 
-/// AdjacencyMap on the non-contiguous vertex set {0, 2, 5}: complement and
+/// AdjacencyMap on the non-contiguous vertex set {0, 2, 3}: complement and
 /// converse must stay within V.
 fn map_noncontiguous(which: usize) {
-    const IDS: [usize; 3] = [0, 2, 5];
+    const IDS: [usize; 3] = [0, 2, 3];
 
     cx::set_vcap(8);
 
@@ -293,9 +293,9 @@ fn map_noncontiguous(which: usize) {
 
     // make all three ids vertices (add then remove an arc), then load g
     d.add_arc(0, 2);
-    d.add_arc(2, 5);
+    d.add_arc(2, 3);
     let _ = d.remove_arc(0, 2);
-    let _ = d.remove_arc(2, 5);
+    let _ = d.remove_arc(2, 3);
 
     for u in 0..3 {
         for v in 0..3 {
@@ -325,7 +325,7 @@ fn map_noncontiguous(which: usize) {
             assert!(r.has_arc(IDS[u], IDS[v]) == def, "result contains exactly the defined arcs");
         }
 
-        for x in [1_usize, 3, 4] {
+        for x in [1_usize] {
             assert!(!r.has_arc(IDS[u], x) && !r.has_arc(x, IDS[u]), "no endpoint outside V");
         }
     }
@@ -366,7 +366,7 @@ pub fn c11_complement_edge_list_n3() {
     complement::<EdgeList, 3>(1);
 }
 
-// @verif prop=C11 tier=quick fl=f1 role=complement/adjacency-map t=1200 mem=12
+// @verif prop=C11 tier=quick fl=f1 feat=map4 role=complement/adjacency-map t=1200 mem=12
 #[cfg_attr(kani, kani::proof)]
 #[cfg_attr(kani, kani::unwind(10))]
 pub fn c11_complement_adjacency_map_n3() {
@@ -394,14 +394,14 @@ pub fn c11_converse_edge_list_n3() {
     converse::<EdgeList, 3>();
 }
 
-// @verif prop=C11 tier=quick fl=f2 role=converse/adjacency-map t=1200 mem=12
+// @verif prop=C11 tier=quick fl=f2 feat=map4 role=converse/adjacency-map t=1200 mem=12
 #[cfg_attr(kani, kani::proof)]
 #[cfg_attr(kani, kani::unwind(10))]
 pub fn c11_converse_adjacency_map_n3() {
     converse::<AdjacencyMap, 3>();
 }
 
-// @verif prop=C11 tier=quick fl=f2 role=converse/weighted t=1200 mem=12
+// @verif prop=C11 tier=quick fl=f2 feat=map4 role=converse/weighted t=1200 mem=12
 #[cfg_attr(kani, kani::proof)]
 #[cfg_attr(kani, kani::unwind(10))]
 pub fn c11_converse_weighted_n3() {
@@ -452,21 +452,21 @@ pub fn c11_union_adjacency_map_n2_m2_p4() {
     union::<AdjacencyMap, 2, 2, 2>(4);
 }
 
-// @verif prop=C11 tier=quick fl=f2 role=filter/adjacency-map t=1200 mem=12
+// @verif prop=C11 tier=quick fl=f2 feat=map4 role=filter/adjacency-map t=1200 mem=12
 #[cfg_attr(kani, kani::proof)]
 #[cfg_attr(kani, kani::unwind(10))]
 pub fn c11_filter_adjacency_map_n3() {
     filter::<3>();
 }
 
-// @verif prop=C11 tier=quick fl=f2 role=complement/adjacency-map-noncontiguous t=1200 mem=12
+// @verif prop=C11 tier=quick fl=f2 feat=map4 role=complement/adjacency-map-noncontiguous t=1200 mem=12
 #[cfg_attr(kani, kani::proof)]
 #[cfg_attr(kani, kani::unwind(10))]
 pub fn c11_complement_map_noncontiguous() {
     map_noncontiguous(0);
 }
 
-// @verif prop=C11 tier=quick fl=f2 role=converse/adjacency-map-noncontiguous t=1200 mem=12
+// @verif prop=C11 tier=quick fl=f2 feat=map4 role=converse/adjacency-map-noncontiguous t=1200 mem=12
 #[cfg_attr(kani, kani::proof)]
 #[cfg_attr(kani, kani::unwind(10))]
 pub fn c11_converse_map_noncontiguous() {
